@@ -48,9 +48,11 @@ CHECKS = {
             "(apply_on_sql_target_sound, via the tree-building induction of C17); back-tracking from an iteration-engine "
             "target INTO a SQL preferred engine (the operation is handed to the SQL engine's own apply below the transfer "
             "that leads there) and apply with such a preferred engine for every backtrack/require combination with "
-            "transfer=False (backtracking_sound_any_preferred_engine, apply_with_sql_preferred_engine_sound). Proof "
+            "transfer=False (backtracking_sound_any_preferred_engine, apply_with_sql_preferred_engine_sound), and with "
+            "transfer=True without back-tracking (apply_with_transfer_to_preferred_engine_sound: the target is transferred "
+            "into the preferred engine, a database conforms the new Transfer, and the operation is applied there). Proof "
             "(partial): a Projection past a Deduplication (finding F04) is excluded by hypothesis; joins, and transfer=True "
-            "towards a SQL preferred engine from an iteration-engine target, are validated by correspondence + oracle. The proof attempt itself exposed three genuine defects, now repaired. " + CORR,
+            "COMBINED with back-tracking towards a SQL preferred engine from an iteration-engine target, are validated by correspondence + oracle. The proof attempt itself exposed three genuine defects, now repaired. " + CORR,
             "", "DESIGN.md 5/C03"),
     "C04": (PR, "Lean 4 theorem commute_sound_partial over all 49 operation-class pairs + machine-checked counterexample for the one unsound pair + correspondence",
             "Machine-checked for every pair of unary operations with arbitrary parameters, every target column set and "
@@ -67,16 +69,19 @@ CHECKS = {
             "Machine-checked: columns and [min_rows,max_rows] are truthful for every well-formed tree over truthful "
             "leaves (all operations incl. join/chain), hence join-identity/trivial flags and the short-cuts keyed on "
             "them. " + CORR, "", "DESIGN.md 5/C06"),
-    "C07": (PR, "Lean 4 theorems over the monadic model of Processor._process_recursive: multi_engine_process_then_execute_yields_direct_rows (operations in iteration engines, fed by transfers between iteration engines AND by transfers out of a SQL engine whose hook conforms, compiles and runs the source; chains, materializations - also directly after a transfer), idempotence on processed trees + correspondence + oracle on every generated multi-engine program",
+    "C07": (PR, "Lean 4 theorems over the monadic model of Processor._process_recursive: multi_engine_process_then_execute_yields_direct_rows (operations in iteration engines, fed by transfers between iteration engines AND by transfers out of a SQL engine whose hook conforms, compiles and runs the source; chains, materializations of any subtree of the class), any number of repeated process() calls, idempotence on processed trees + correspondence + oracle on every generated multi-engine program",
             "Machine-checked (Props/C07.lean; the model of Processor.process with the two hooks instantiated the way the "
             "harness's real Processor instantiates them): for every tree of leaves, unary operations, chains, "
-            "materializations of single-engine subtrees AND MATERIALIZATIONS DIRECTLY AFTER A TRANSFER (the payload of the new "
-            "Transfer is handed to the new Materialization and to the input's one, no hook runs twice), transfers BETWEEN iteration engines and transfers OUT OF A SQL "
+            "MATERIALIZATIONS OF ANY SUBTREE OF THE CLASS (directly after a transfer: the payload of the new Transfer is handed "
+            "to the new Materialization and to the input's one; over re-applied operations: the hook evaluates the processed "
+            "target; over a chain pruned to a leaf or Materialization: nothing is added, its payload is handed on), "
+            "transfers BETWEEN different iteration engines and transfers OUT OF A SQL "
             "ENGINE whose source is a raw SQL tree over tables (unary operations, joins, chains), statically trivial "
             "transfers and materializations included, nested to any depth: whenever process succeeds the returned tree has "
             "the engine and columns of the input and executing it in its final engine yields exactly the rows - values, "
             "multiplicity, order - of the direct evaluation of the input "
-            "(multi_engine_process_then_execute_yields_direct_rows); behind it an induction through the monadic model "
+            "(multi_engine_process_then_execute_yields_direct_rows), and so does every one of ANY NUMBER of repeated process() "
+            "calls on the same tree (repeated_processing_yields_direct_rows); behind it an induction through the monadic model "
             "(multi_engine_processing_invariant) that composes the other properties' theorems: a hook on an iteration-engine "
             "source returns the direct rows because execute is correct (C01, generalised to trees containing processed "
             "Transfers: exec_correctM), a hook on a SQL source returns them because conform preserves rows (C17) and the "
@@ -92,7 +97,7 @@ CHECKS = {
             "reprocessing_calls_no_hook, fully_processed_tree_is_returned_unchanged); a statically trivial Transfer gets the "
             "engine's trivial payload on a new node, the hook log unchanged (trivial_transfer_calls_no_hook). Proof "
             "(partial): operations or materializations INSIDE a SQL engine downstream of a transfer (transfers INTO a SQL "
-            "engine), joins across engines, Select markers in the input and transfers deeper below a materialization are validated "
+            "engine), joins across engines, and Select markers in the input are validated "
             "by the correspondence and the oracle on every generated program, not proved; for SQL sources the theorem "
             "assumes faithful table payloads and the decidable check Rel.structReady on the conformed source (as C02); the "
             "multi-engine theorem is a partial-correctness statement (it assumes process returned). " + CORR, "",
